@@ -67,6 +67,27 @@ func c15(c *Ctx) {
 						}
 					}
 				}
+				// or the streaming form: buf = append(buf, prefix...); buf = append(buf, item...) with
+				// nothing appended in between, and the buffer is what is returned
+				if !good {
+					for _, b := range fn.Blocks {
+						for _, in := range b.Instrs {
+							a2, ok := in.(*ssa.Call)
+							if !ok || core.CalleeID(a2) != "builtin.append" || a2.Call.Args[1] != item {
+								continue
+							}
+							a1, ok := a2.Call.Args[0].(*ssa.Call)
+							if !ok || core.CalleeID(a1) != "builtin.append" || a1.Call.Args[1] != call.Value() {
+								continue
+							}
+							for _, ret := range core.Returns(fn) {
+								if len(ret.Results) == 1 && core.Derives(ret.Results[0], func(v ssa.Value) bool { return v == ssa.Value(a2) }, core.DeriveOpts{}) {
+									good = true
+								}
+							}
+						}
+					}
+				}
 				r.Check(good, "R1.encoder", name+" frame", p.Pos(fn.Pos()),
 					"returns append(prefix, item...) with the item itself", "the encoder does not return prefix followed by the unmodified item")
 			}
